@@ -17,6 +17,9 @@ package hashcom
 //@   free requires forall key []byte :: hst(res(hmacFunc(key), 0)) == hkey(key)
 //@   ensures k == nil ==> err != nil
 //@   ensures err == nil ==> result[:] == hcom(k[:], message, witness[:])
+// errors of the hash constructor carry no party tag (assumed), so neither do the errors of commit and open
+//@   free requires forall key []byte, x V :: !culprit(res(hmacFunc(key), 1), x)
+//@   ensures forall x V :: !culprit(err, x)
 
 //@ func Commitment.Equal
 //@   property C18, C10
@@ -29,6 +32,7 @@ package hashcom
 //@   purefn
 //@   ensures result == nil ==> bytesEq(hcom(k[:], message, witness[:]), commitment[:])
 //@   ensures (k != nil && res(k.CommitWithWitness(message, witness), 1) == nil && !bytesEq(hcom(k[:], message, witness[:]), commitment[:])) ==> result != nil
+//@   ensures forall x V :: !culprit(result, x)
 
 // Keys derived from a transcript are a function of the transcript history and the label.
 //@ func ExtractCommitmentKey
